@@ -43,8 +43,6 @@ def parts(ctx):
                "some_modified_txs.insert(i + new_tx_i + 1, new_tx); new_tx_i += 1;", 'R9')
     dl.replace("sfl.acb_adjust_affiliate_ratios.keys().collect();",
                "hole_keys(&sfl.acb_adjust_affiliate_ratios);", 'H')
-    dl.replace("acb_adjust_affiliates.sort_by(|a, b| a.id().cmp(b.id()));",
-               "sort_affs(&mut acb_adjust_affiliates);", 'H')
     dl.replace("&sfl.acb_adjust_affiliate_ratios[af]", "sfl.acb_adjust_affiliate_ratios.get(af).unwrap()", 'R15')
     sl = Src(ctx, 'portfolio/bookkeeping/superficial_loss.rs').cut_after('// MARK: tests').cut_tests().standard()
     sl.replace("for af in &self.buying_affiliates {", "for af in self.buying_affiliates.iter() {", 'R8')
